@@ -372,6 +372,8 @@ def run(ctx):
 def replay(ctx, path):
     d = json.load(open(path))
     rp = d.get('replay') or d
+    ctx.sample(dict(replayed=os.path.basename(path), kind=rp.get('kind'), case=rp.get('case')))
+    ctx.cov['rule'] = 'replay of one recorded case'
     T = oc.Tools(ctx, variants=('plain', 'asan'))
     kind = rp.get('kind')
     if kind in ('proof', 'build'):
